@@ -2,127 +2,34 @@
 package main
 
 import (
-	"encoding/json"
-	"fmt"
-	"os"
-	"os/exec"
-	"path/filepath"
-	"strings"
-
-	"verifh/lib"
 	"verifh/luagen"
+	"verifh/luaprop"
 )
 
-const header = "From Coq Require Import Floats.\nFrom GL Require Import Common.Bytes Lua.Syntax Lua.Run Lua.LuaCases.\nOpen Scope float_scope."
-
-type input struct {
-	Src  string `json:"src"`
-	Seed uint64 `json:"seed"`
-	Idx  int    `json:"idx"`
-	Mode string `json:"mode"`
-}
-
-// shrink <seed> <idx>: minimise a failing generated program with coqc as the oracle (development aid,
-// also used to produce small replays).
-func shrinkCmd(seed uint64, idx int) {
-	r := lib.NewRand(seed*1000003 + uint64(idx))
-	g := luagen.NewGen(r, luagen.CoreFeatures())
-	prog := g.Program()
-	dir, _ := os.MkdirTemp("", "c01shr")
-	defer os.RemoveAll(dir)
-	fails := func(p []luagen.Stmt) bool {
-		src := luagen.PrintLua(p)
-		out := luagen.Run(src, nil)
-		if out.GoFail != "" {
-			return false
-		}
-		v := header + "\nOpen Scope Z_scope.\nDefinition cc : case := CProg " + luagen.CoqBlock(p) + " " + out.Coq() + ".\n" +
-			"Definition rr := Eval vm_compute in (check_spec cc).\nPrint rr.\n"
-		os.WriteFile(filepath.Join(dir, "cand.v"), []byte(v), 0o644)
-		cmd := exec.Command("timeout", "120", "coqc", "-R", "/verif/coq", "GL", "cand.v")
-		cmd.Dir = dir
-		o, _ := cmd.CombinedOutput()
-		if !strings.Contains(string(o), "rr = ") {
-			fmt.Println("oracle error:", string(o)[:min(len(o), 600)])
-		}
-		return strings.Contains(string(o), "rr = false")
-	}
-	if !fails(prog) {
-		fmt.Println("does not fail")
-		return
-	}
-	small := luagen.Shrink(prog, fails, 400)
-	src := luagen.PrintLua(small)
-	fmt.Println(src)
-	out := luagen.Run(src, nil)
-	b, _ := json.Marshal(out.Summary())
-	fmt.Println("OBSERVED:", string(b))
-}
-
 func main() {
-	if len(os.Args) > 3 && os.Args[1] == "shrink" {
-		var seed uint64
-		var idx int
-		fmt.Sscan(os.Args[2], &seed)
-		fmt.Sscan(os.Args[3], &idx)
-		shrinkCmd(seed, idx)
-		return
-	}
-	a := lib.ParseArgs()
-	w, err := lib.NewWriter(a.Out, "C01", a.Tier, a.Seed, header, "case", 40)
-	if err != nil {
-		panic(err)
-	}
-	w.HasSkip = true
-	w.Meta.Rule = "random well-typed-by-construction Lua programs (generator luagen, core feature mix) printed one statement per line; each is run by DoString-equivalent on the real interpreter " +
-		"and its emit trace/results/error compared with the reference evaluator in Coq; non-trivial = at least 5 emitted rows or an error outcome; distinct by Gallina term"
-	if a.Replay != "" {
-		b, _ := os.ReadFile(a.Replay)
-		var rp struct {
-			Input input `json:"input"`
-		}
-		json.Unmarshal(b, &rp)
-		runOne(w, rp.Input.Seed, rp.Input.Idx, rp.Input.Mode)
-	} else {
-		n := 240
-		if a.Tier == "thorough" {
-			n = 6000
-		}
-		for i := 0; i < n; i++ {
-			runOne(w, a.Seed, i, "core")
-		}
-	}
-	w.Meta.Extra = map[string]any{"feature_uses": uses}
-	if err := w.Close(); err != nil {
-		panic(err)
-	}
+	luaprop.Main(&luaprop.Config{
+		Prop: "C01",
+		Rule: "random well-typed-by-construction Lua programs (generator luagen, core feature mix: every operator with constant/local/upvalue/global/field operands, " +
+			"single and multiple assignment incl. swaps, all loop kinds, break, goto shapes) printed one statement per line; each is run on the real interpreter " +
+			"and its emit trace/results/error compared in Coq with the reference evaluator; non-trivial = at least 5 emitted rows or an error outcome; distinct by Gallina term",
+		Modes:     []luaprop.Mode{{Name: "core", Features: luagen.CoreFeatures(), Weight: 1}},
+		NQuick:    220,
+		NThorough: 6000,
+		Corpus:    corpus,
+	})
 }
 
-var uses = map[string]int{}
-
-func runOne(w *lib.Writer, seed uint64, idx int, mode string) {
-	r := lib.NewRand(seed*1000003 + uint64(idx))
-	g := luagen.NewGen(r, luagen.CoreFeatures())
-	prog := g.Program()
-	src := luagen.PrintLua(prog)
-	out := luagen.Run(src, nil)
-	for k, v := range g.Uses {
-		uses[k] += v
-	}
-	coq := fmt.Sprintf("CProg %s %s", luagen.CoqBlock(prog), out.Coq())
-	if out.GoFail != "" {
-		// a hang/escaped panic is a failure by itself; keep the shard cheap
-		coq = "CProg [] (Outcome [] (OOk []))"
-	}
-	c := lib.Case{
-		Input:      input{Src: src, Seed: seed, Idx: idx, Mode: mode},
-		Observed:   out.Summary(),
-		Class:      mode,
-		Nontrivial: len(out.Trace) >= 5 || !out.Ok,
-		Coq:        coq,
-	}
-	id := w.Add(c)
-	if out.GoFail != "" {
-		w.GoFail(id, out.GoFail)
-	}
+// witnesses of repaired defects and minimised earlier failures
+var corpus = []string{
+	`local a,b=1,2; a,b=b,a; emit(a,b); local x,y,z=1,2,3; x,y,z=z,x,y; emit(x,y,z); local m,n=1,2; m,n=n,m+0; emit(m,n)`,
+	`local a={} local p=7; g, a.x = 5, p; emit(g, a.x); local d='e' local f=1; f, a.d = f, d; emit(f, a.d)`,
+	`local s=0; for i="1",2 do s=s+i end; for i=1,"2" do s=s+i end; emit(s)`,
+	`local v = 's'; v = not v and 5; emit(v); local w = 3; w = w == 4 and 1 ~= 2; emit(w)`,
+	`local t = {-3 % 3}; local a = 4; emit(a / 0, 1 / t[1]); local z = 0; emit(1/(z * -1), 1/(-z))`,
+	`local function it(s,c) return nil end; for u,x in it,{101} do end; local n=0; for k,v in next,{101} do n=n+1 end; emit(n)`,
+	`local a1 = 8; local function g() return a1 end; local c=0; ::top:: c=c+1; if c<3 then goto top end; a1 = 100; emit(g())`,
+	`local i=0 local j=0 if i>100 then j=5 end while true do while true do break end i=i+1 j=j+10 if i>3 then break end end emit(i,j)`,
+	`emit(pcall(error)); emit(pcall(function() local x = nil; return x.y end))`,
+	`emit(10 % 3, -10 % 3, 10 % -3, 2^10, 7/2, "10"+1, "0x10"*2, 10 .. 20, #"abc", not nil, 1 < 2, "a" < "b", 1 == 1.0, "1" == 1)`,
+	`local t = {10,20,30,nil}; emit(#t); t[#t+1] = 40; emit(#t, t[4]); local u = {n=1, [1]="a", [2]="b"}; emit(#u, u.n)`,
 }
